@@ -19,7 +19,8 @@ TRUSTED = [
     "Go map semantics for comparable keys whose == is reflexive",
     "ranging over a map is modelled (model and both translator renderings) as a fold over the map's key list at loop entry, in an arbitrary order (order oracle: C07_run_oracle, C07_addset, C07_removeset); exact for loop bodies that delete at most the current key from, and insert only already present keys into, the map being ranged over - the case of s.AddSet(s) / s.RemoveSet(s) with the current bodies; the correspondence run exercises both",
     "store rendering (harness/cmd/xlate_set -part store): Set values are references into a heap, make allocates, assignments copy references, writes go to the location; a write to the nil map (a panic in Go) leaves the heap unchanged - the tie to the store-level operations of SetHeapModel.v, which allocate before writing, excludes it",
-    "Go harness harness/cmd/c07 (generator, element->index mapping, probes), Go 1.23 toolchain",
+    "Go harness harness/cmd/c07 (generator, element->index mapping, probes; every operation runs under recover(), a panicking operation ends the sequence and is a failing input), Go 1.23 toolchain",
+    "file set of the translators: harness/internal/srcset (all non-test .go files of package set matching the build context of the harness build, as go/build selects them)",
     "translator harness/cmd/xlate_set + harness/internal/setxl (go/parser -> Gallina over the map and slice primitives of SetGenPrims.v for Make/Slice/Add/AddSet/Remove/RemoveSet/Has/HasAny and the helpers they call; a map copied into a local is an alias of the same map); its output is proved equal to the model for all arguments by coq/ties/Tie_C07.v (shape-independent tactics of Base/SetLoopTie.v, canonical forms of SetTieLemmas.v); the translator itself is validated by the correspondence run",
 ]
 
@@ -113,7 +114,9 @@ def run(ctx):
         tie_detail = (tie_detail if not tie_ok else "") + "\n[store semantics] " + st_detail
         tie_ok = False
     runs = [("corpus", ["-mode", "corpus"]),
-            ("random", ["-mode", "random", "-n", 800 if quick else 30000])]
+            ("random", ["-mode", "random", "-n", 700 if quick else 30000])]
+    if not quick:   # thorough: the large universes as a random stream too (quick has them as fixed corpus)
+        runs.append(("big", ["-mode", "big", "-n", 3000, "-sizes", steer_sizes(ctx)]))
     terms, jsons, err = vlib.harness_cases(ctx, binp, runs)
     if err:
         ctx.report({"unchecked": "harness run", "detail": err}, {"kind": "harness"}, failing_input=False)
@@ -123,10 +126,17 @@ def run(ctx):
         ctx.report({"unchecked": "in-kernel evaluation of the correspondence", "detail": err},
                    {"kind": "coq_eval"}, failing_input=False)
         return
-    mjs = multi(ctx, binp, 400 if quick else 15000)
+    mjs = multi(ctx, binp, 350 if quick else 15000)
+    if not quick:
+        mjs += multi(ctx, binp, 1500, seed_offset=977, mode="bigmulti", extra=["-sizes", steer_sizes(ctx)])
     if not tie_ok and not ctx.violations:
-        # a broken tie with a clean correspondence run: widen the search for a failing input
-        t2, j2, err = vlib.harness_cases(ctx, binp, [("widen", ["-mode", "random", "-n", 3000, "-seed", ctx.seed + 7919])])
+        # a broken tie with a clean correspondence run: widen the search for a failing input — first along
+        # SIZE (sets larger than one map bucket, argument lists up to 16, sizes steered by the literals of
+        # the source), then more of the ordinary sequences
+        sizes = steer_sizes(ctx)
+        ctx.log("widening: universe sizes", sizes)
+        t2, j2, err = vlib.harness_cases(ctx, binp, [("widenbig", ["-mode", "big", "-n", 500, "-sizes", sizes, "-seed", ctx.seed + 31]),
+                                                     ("widen", ["-mode", "random", "-n", 2500, "-seed", ctx.seed + 7919])])
         if not err:
             b2, _, err = judge(ctx, t2, "widen")
             for i, code in (b2 or []):
@@ -139,6 +149,8 @@ def run(ctx):
                             "verdict": "observation violates the mathematical-set specification" if code == 1 else "observation differs from the Coq model"},
                            features(j, step), failing_input=(code == 1))
             jsons += j2
+        if not ctx.violations:
+            mjs += multi(ctx, binp, 250, seed_offset=977, mode="bigmulti", extra=["-sizes", sizes])
         if not ctx.violations:
             mjs += multi(ctx, binp, 1500, seed_offset=104729)
     if not tie_ok and not ctx.violations:
@@ -179,8 +191,26 @@ def run(ctx):
     ctx.log("correspondence: %d cases, %d operations, %d disagreement(s)" % (len(jsons), ops, len(bad)))
 
 
-def multi(ctx, binp, n, seed_offset=0):
-    args = ["-mode", "multi", "-n", n] + (["-seed", ctx.seed + seed_offset] if seed_offset else [])
+def steer_sizes(ctx):
+    """universe sizes for the widened search: the fixed ladder beyond one map bucket plus sizes around every
+    integer literal / constant of the package's source (thresholds such as `len(s) > 8`)"""
+    import re
+    sizes = {9, 17, 33, 65, 129}
+    d = os.path.join(ctx.copy_repo(), "set")
+    for name in sorted(os.listdir(d)):
+        if not name.endswith(".go") or name.endswith("_test.go"):
+            continue
+        txt = re.sub(r"//[^\n]*", "", open(os.path.join(d, name), errors="replace").read())
+        txt = re.sub(r"/\*.*?\*/", "", txt, flags=re.S)
+        for m in re.finditer(r"(?<![\w.])(\d{1,3})(?![\w.])", txt):
+            v = int(m.group(1))
+            if 2 <= v <= 150:
+                sizes.update({v + 1, 2 * v + 1, 2 * v + 2})
+    return ",".join(str(v) for v in sorted(x for x in sizes if 2 <= x <= 320))
+
+
+def multi(ctx, binp, n, seed_offset=0, mode="multi", extra=()):
+    args = ["-mode", mode, "-n", n] + list(extra) + (["-seed", ctx.seed + seed_offset] if seed_offset else [])
     terms, jsons, err = vlib.harness_cases(ctx, binp, [("multi%d" % seed_offset, args)])
     if err:
         ctx.report({"unchecked": "harness run (multi)", "detail": err}, {"kind": "harness"}, failing_input=False)
